@@ -2,6 +2,7 @@ package main
 
 import (
 	"fmt"
+	"golang.org/x/tools/go/ssa"
 	"go/ast"
 	"go/token"
 	"go/types"
@@ -77,6 +78,20 @@ func (g *Gen) frameEnv(f *Frame, st *State, results []Term) *Env {
 	}
 	for name, t := range f.named {
 		env.vars[name] = Arg{t: t}
+	}
+	// loop-carried source variables are visible by their source name inside loop clauses
+	for _, phi := range f.loopPhis {
+		if phi.Comment != "" && phi.Comment != "rangeindex" {
+			if t, ok := f.vals[phi]; ok {
+				env.vars[phi.Comment] = Arg{t: t}
+			}
+		}
+	}
+	if f.loopIdx != nil {
+		// "loopidx": the hidden index of the enclosing `for ... range slice` loop; elements 0..loopidx are done
+		if t, ok := f.vals[f.loopIdx]; ok {
+			env.vars["loopidx"] = Arg{t: t}
+		}
 	}
 	return env
 }
@@ -429,6 +444,23 @@ func (env *Env) tr(e ast.Expr) Term {
 		}
 		cerr("cannot select %s from %s (%v)", e.Sel.Name, exprString(e.X), x.T)
 	case *ast.IndexExpr:
+		if id, ok := e.X.(*ast.Ident); ok && env.pkg != nil {
+			if _, isVar := env.lookupVar(id.Name); !isVar {
+				if _, isB := env.bound[id.Name]; !isB {
+					if o, ok := env.pkg.Scope().Lookup(id.Name).(*types.Var); ok {
+						if sp := g.w.SSAPkgs[env.pkg.Path()]; sp != nil {
+							if gl, ok := sp.Members[o.Name()].(*ssa.Global); ok {
+								if _, vf, ok := g.tableFuncs(gl); ok {
+									i := env.tr(e.Index)
+									mt := types.Unalias(o.Type()).Underlying().(*types.Map)
+									return Term{fmt.Sprintf("(%s %s)", vf, i.S), g.d.sortOf(mt.Elem()), mt.Elem()}
+								}
+							}
+						}
+					}
+				}
+			}
+		}
 		x := env.tr(e.X)
 		i := env.tr(e.Index)
 		switch u := types.Unalias(x.T).Underlying().(type) {
